@@ -276,6 +276,7 @@ func Run[C any](t *testing.T, id string, gen func(*rapid.T) C, decide func(C) Ve
 	})
 	rapid.Check(t, func(rt *rapid.T) {
 		c := gen(rt)
+		persistCurrent(id, test, c)
 		stop := watchdog(id, test, c)
 		v := safeDecide(decide, c)
 		stop()
@@ -292,6 +293,26 @@ func Run[C any](t *testing.T, id string, gen func(*rapid.T) C, decide func(C) Ve
 		last.set, last.c, last.v = true, c, v
 		rt.Fatalf("property %s violated [%s]: %s", id, v.Signature, firstLines(v.Detail, 25))
 	})
+}
+
+// persistCurrent writes the case about to be decided to <run dir>/current-<shard>.json (VERIF_PERSIST_CASE=1). A
+// case that takes the whole process down - a fatal runtime error such as a stack overflow cannot be recovered -
+// leaves that file behind, and the driver turns it into the replay file of the violation.
+func persistCurrent(id, test string, c any) {
+	if os.Getenv("VERIF_PERSIST_CASE") == "" {
+		return
+	}
+	dir := os.Getenv("VERIF_RUN_DIR")
+	if dir == "" {
+		return
+	}
+	cb, err := json.Marshal(c)
+	if err != nil {
+		return
+	}
+	r := Replay{Property: id, Test: test, Signature: "process-died", Detail: "the process ended while this case was being decided", Case: cb}
+	b, _ := json.Marshal(r)
+	_ = os.WriteFile(filepath.Join(dir, "current-"+os.Getenv("VERIF_SHARD")+".json"), b, 0o644)
 }
 
 // RunFixed runs decide over an explicit list of cases (exhaustive families,
